@@ -152,6 +152,9 @@ class Pseudo2NetCDF:
             if isinstance(pvar, NetCDFVariable):
                 pvar = pvar[...]
             nvar[...] = pvar
+        elif isinstance(pvar[...], MaskedArray) and isinstance(nvar, MaskedArray):
+            # in-memory masked target: keep the mask instead of filling
+            nvar[:] = pvar[...]
         elif isinstance(pvar[...], MaskedArray):
             nvar[:] = pvar[...].filled(getattr(nvar, 'fill_value', getattr(
                 nvar, '_FillValue', getattr(pvar, 'missing_value', -9999))))
